@@ -152,6 +152,8 @@ def _worker(hname, cfgs, opts, tasks, results, widx, stop_flags=None, path_count
         if hasattr(hmod, "setup"):
             hmod.setup(mods)
         shims.install(mods)
+        from . import ufmodel
+        ufmodel.install()  # log/exp/sin/cos/pow of a symbolic value: uninterpreted with axioms (every harness)
         E = Engine(timeout_ms=opts["timeout_ms"], logic=getattr(hmod, "LOGIC", None), path_wall_s=opts["path_wall_s"])
         eng.set_engine(E)
         stats = {}
@@ -179,6 +181,7 @@ def _worker(hname, cfgs, opts, tasks, results, widx, stop_flags=None, path_count
                     cx = SymCtx(E, known_labels=set(st.cands.keys()))
                     shims.set_ctx(cx)
                     shims.rng_fresh()
+                    ufmodel.reset()
 
                     def fn(E_, cx=cx, cfg=cfg, st=st):
                         try:
